@@ -14,6 +14,7 @@ Requests (numbers decimal; `nil` is the nil id):
                                  the node becomes the crashed node             → h=<start height> pruned=<n> log=<entry,…|->
   rentry <smHeight> <entry>      driver.replay's skip rule                     → skip | feed
   ract <action>*                 execute(isReplaying=true, actions)            → <committed 0|1> <effect>*
+  close                          regular stop (Close flushes the pending batch)   → flush
   state                                                                       → chain=… pruned=… pending=<n> live=<entry,…|->
   push / pop                     save / restore the whole model state (to explore several crash
                                  points of the same history)                   → ok
@@ -99,6 +100,9 @@ def step1 (s : DS) (line : String) : DS × String :=
     | none => (s, "bad-op")
   | "live" :: ws => runActs false s ws
   | "ract" :: ws => runActs true s ws
+  | ["close"] =>
+    -- regular stop: `Run`'s deferred `db.Close()` flushes what is pending
+    ({ s with trace := s.trace ++ [Effect.flush], cur := applyEffects s.cur [Effect.flush] }, "flush")
   | ["crash", k] =>
     match k.toNat? with
     | some k =>
